@@ -143,6 +143,7 @@ def gen_case(rng, tier="quick"):
         "strided": rng.random() < 0.1,
         "backing": "path" if rng.random() < 0.2 else "memfd",
         "numpy_common": rng.random() < 0.05,
+        "numpy_keys": rng.random() < 0.06,
     }
 
 
@@ -181,8 +182,10 @@ def derive_case(rng, base):
             c["entries"].append([k, gen_rowids(rng, 6)])
     else:
         c["entries"] = [[k, gen_rowids(rng, 6)] for k, _ in c["entries"]]
-    c["wmode"] = rng.choice(disk.WRITER_MODES)
+    c["wmode"] = rng.choice(("raw", "bufw", "bufrw"))
     c["rmode"] = rng.choice(disk.READER_MODES)
+    # saved OVER the previous file (handle rewound, nothing truncated): a shorter index leaves a stale tail
+    c["over_previous"] = rng.random() < 0.5
     return c
 
 
@@ -217,6 +220,11 @@ def expand(case):
 
 def entries_dict(case):
     out = {tuple(k): numpy.array(rows_of(v), dtype=U32) for k, v in case["entries"]}
+    if case.get("numpy_keys") and out:
+        # coordinates as NumPy scalars of the narrowest dtype, as tuple(row) over a coordinate array gives them
+        mx = max(c for k in out for c in k)
+        dt = numpy.dtype("u%d" % refcodec.narrowest_word(mx))
+        out = {tuple(dt.type(c) for c in k): v for k, v in out.items()}
     if case.get("strided"):
         from .. import model
 
@@ -242,11 +250,13 @@ def real_save(case, d, log, mode=None):
     except Exception as e:
         raise SaveRaised(e)
     log.add("save", tuple(f.calls))
+    f.tell_end = f._f.tell() if not f.append else d.size()
     return f
 
 
 HELD = []  # (case, loaded) of the earlier files of the current run
 BACKING = ["memfd"]  # what the torn files of the current C12 case live on
+PREVIOUS_BYTES = [None]  # the complete previous file of the current run (for "saved over the previous file")
 
 
 class SaveRaised(Exception):
@@ -337,12 +347,20 @@ def pick_files(rng, tier):
 def c10_execute(case, stats, log):
     prop = "C10"
     case = expand(case)
-    with disk.SimDisk(backing=case.get("backing", "memfd")) as d:
+    stale = PREVIOUS_BYTES[0] if case.get("over_previous") else None
+    with disk.SimDisk(stale, backing=case.get("backing", "memfd")) as d:
+        if stale:
+            stats.count("probe_saved_over_previous_file")
         f = real_save(case, d, log)
-        if not f.append:
+        if not f.append and not stale:
             disk.check_log_reproduces(f.ops, d)
         f.close()
-        log.add_bytes(d.content())
+        content = d.content()
+        if stale and len(stale) > f.tell_end:
+            stats.count("probe_stale_tail_after_shorter_save")
+            content = content[: f.tell_end]
+        PREVIOUS_BYTES[0] = content if len(content) < 20000 else None
+        log.add_bytes(content)
         try:
             loaded = real_load(d, case["rmode"])
         except Exception as e:
@@ -456,7 +474,7 @@ def c11_scale(case, stats, log):
             raise Violation(prop, "load-raised-at-scale:" + type(e).__name__, "load-scale", repr(e))
         finally:
             f.close()
-        got = [len(loaded[0][(i + 1,)]) for i in range(len(lengths))]
+        got = [len(loaded[0][(i + 1,)]) if (i + 1,) in loaded[0] else None for i in range(len(lengths))]
         del loaded
         if got != lengths:
             raise Violation(prop, "loaded-lengths-wrong-at-scale", "load-scale", "%r != %r" % (got, lengths))
@@ -757,6 +775,7 @@ def files_of(case):
 
 def execute_all(prop, case, stats, log):
     del HELD[:]
+    PREVIOUS_BYTES[0] = None
     for n, one in enumerate(files_of(case)):
         try:
             EXECUTORS[prop](one, stats, log)
